@@ -599,6 +599,14 @@ class HistGen:
             to = rng.choice(payers)
             q = quote_amount if quote_amount is not None else rng.getrandbits(40)
             m = rng.choice([q + 1, q + 1 + rng.randrange(0, q + 2), 2 * q + 1, max(0, q - 1), 1])
+        if getattr(w, "whale", False) and final[0] == "n" and quote_amount and quote_amount < (1 << 100) and rng.random() < 0.06:
+            # the recipient is filled up so that the delivery takes it to exactly 2^128-1 (prev + minimum wraps past u128)
+            to = "whale_recv"
+            cur = w.ledger.get("whale_recv", final[1])
+            target = M128 - quote_amount
+            if target > cur and w.x_bank("whale", "whale_recv", [[final[1], str(target - cur)]])["r"] == "ok":
+                w.retrack()
+                m = rng.choice([quote_amount + 1, quote_amount + 1, quote_amount, 2 * quote_amount + 5, M128])
         op = w.op_route(actor, spec["hops"], spec["amount"], minimum_receive=m, to=to)
         op["sem"]["quote"] = quote_amount
         if final[0] == "t" and rng.random() < 0.08:
